@@ -179,8 +179,8 @@ def inline_new_helpers(d):
     skip = set()
     for _round in range(8):
         byid = {f['id']: f for f in d['fns']}
-        new_fns = [f for f in d['fns'] if f['kind'] in ('Fn', 'AssocFn') and not f.get('public') and not f.get('derived') and f['id'] not in known
-                   and f['id'] not in skip and not f['id'].startswith('parser::')]
+        new_fns = [f for f in d['fns'] if f['kind'] in ('Fn', 'AssocFn') and (not f.get('public') or 'std::convert::From<' in f['id']) and not f.get('derived') and f['id'] not in known
+                   and f['id'] not in skip]
         if not new_fns:
             break
         newids = {f['id'] for f in new_fns}
@@ -287,7 +287,10 @@ def inline_new_helpers(d):
                     and not any(pl['local'] == D['local'] for st in tb_['stmts'] for pl, _ in _places(st)):
                 Bv, T2 = tt['dest']['local'], tt['target']
                 t2 = C['blocks'][T2]
-                if t2['term']['k'] == 'SwitchInt' and len(t2['stmts']) == 1 and t2['stmts'][0]['rv']['k'] == 'Discriminant' and t2['stmts'][0]['rv']['place']['local'] == Bv:
+                # (besides the discriminant read, the block may set drop flags: constant assignments, repeated on the threaded paths)
+                pre_ = t2['stmts'][:-1]
+                if t2['term']['k'] == 'SwitchInt' and t2['stmts'] and t2['stmts'][-1]['rv']['k'] == 'Discriminant' and t2['stmts'][-1]['rv']['place']['local'] == Bv and \
+                        all(st_['rv']['k'] == 'Use' and st_['rv']['op'].get('k') == 'Const' and not st_['place']['proj'] for st_ in pre_) and not tb_['stmts']:
                     arms = dict((int(x[0]), x[1]) for x in t2['term']['targets'])
                     Tc, Tb = arms.get(0), arms.get(1)
                     if Tb is None:
@@ -299,7 +302,7 @@ def inline_new_helpers(d):
                     okc = c0 is not None and c0['rv']['k'] == 'Use' and c0['rv']['op'].get('place', {}).get('local') == Bv and not c0['place']['proj']
                     okb = b_['term']['k'] == 'Call' and b_['term']['callee']['path'].endswith('from_residual') and b_['term']['dest']['local'] == 0 and not b_['term']['dest']['proj']
                     if okc and okb:
-                        thread = dict(x=c0['place'], Tc=Tc, Tr=b_['term']['target'])
+                        thread = dict(x=c0['place'], Tc=Tc, Tr=b_['term']['target'], pre=pre_)
         except Exception:
             thread = None
         nblocks = hblocks
@@ -374,6 +377,7 @@ def inline_new_helpers(d):
                         op = st['rv']['ops'][0]
                         if kind == 'ok':
                             nblocks[i]['stmts'][si] = {'k': 'Assign', 'place': json.loads(json.dumps(thread['x'])), 'rv': {'k': 'Use', 'op': op}, 'span': st['span'], 'inl': True}
+                            nblocks[i]['stmts'][si + 1:si + 1] = json.loads(json.dumps(thread['pre']))
                         else:
                             nblocks[i]['stmts'][si] = {'k': 'Assign', 'place': {'local': 0, 'proj': [], 'ty': C['locals'][0]['ty']}, 'span': st['span'], 'inl': True,
                                                        'rv': {'k': 'Aggregate', 'agg': 'Adt', 'adt': 'std::result::Result', 'variant': 'Err', 'is_enum': True, 'fields': ['0'], 'ops': [op]}}
@@ -544,6 +548,18 @@ class Program:
                 sa, sr = '::'.join(actual.split('::')[-2:]), '::'.join(role.split('::')[-2:])
                 text = re.sub(r'(?<![\w:])' + re.escape(sa) + r'(?![\w])', sr, text)
             d = json.loads(text)
+        # `x.into()` runs the crate's own `impl From<T> for U` when there is one: make that visible as the resolved callee
+        ids_ = {f['id'] for f in d['fns']}
+        for f in d['fns']:
+            for b in f['blocks']:
+                t = b['term']
+                c = t.get('callee') if t['k'] == 'Call' else None
+                if c and c['path'].endswith('convert::Into::into') and len(c.get('gargs') or []) == 2 and not c.get('rlocal'):
+                    tgt = '<%s as std::convert::From<%s>>::from' % (c['gargs'][1], c['gargs'][0])
+                    suffix = '<impl std::convert::From<%s> for %s>::from' % (c['gargs'][0], c['gargs'][1])
+                    cands = [tgt] if tgt in ids_ else [i_ for i_ in ids_ if i_.endswith(suffix)]
+                    if len(cands) == 1:
+                        c['rpath'], c['rlocal'], c['via_into'] = cands[0], True, True
         self.inlined = inline_new_helpers(d)
         self.sroa = sroa(d)
         self.raw = d
